@@ -234,6 +234,18 @@ def run(prog, ctx):
             stores = any(st[0] == "=" and not isinstance(st[1], int) for st in f.blocks[b].stmts)
             if nm in SHRINK_OR_PERMUTE and not stores:
                 continue
+            if nm in ("take", "replace") and not stores:
+                # moving the list out (mem::take / mem::replace with a fresh vector) empties it; nothing is put in
+                a_ = t[1]["args"]
+                fresh = nm == "take"
+                if nm == "replace" and len(a_) == 2:
+                    try:
+                        e2 = Sym(prog, f).at(b, "t").operand(a_[1])
+                        fresh = e2[0] == "call" and e2[1].rsplit("::", 1)[-1] in ("new", "with_capacity", "default")
+                    except Exception:
+                        fresh = False
+                if fresh:
+                    continue
             n_w += 1
             law("C15.W", "%s" % f.id, False, "%s puts centroids into the list without going through the merge criterion of %s (%s)" % (
                 f.id, dm.id, "call of `%s`" % nm if nm and not stores else "direct store"), f.id)
@@ -243,12 +255,18 @@ def run(prog, ctx):
 
     # ---------------- C15.O sorted before the merge loop
     n_o = 0
-    sorts = [(b, site) for b, site in dm.calls() if (site.get("callee") or "").rsplit("::", 1)[-1] in ("sort_by", "sort_unstable_by", "sort_by_key", "sort_unstable_by_key")]
+    SORTS = ("sort_by", "sort_unstable_by", "sort_by_key", "sort_unstable_by_key")
+    sorts = [(b, site) for b, site in dm.calls() if (site.get("callee") or "").rsplit("::", 1)[-1] in SORTS]
+    # the sort may sit in a helper the merge routine calls first (prepare / take the sorted input, then merge)
+    helper_sorts = [b for b, site in dm.calls() if (site.get("callee") or "") in prog.fns and any(
+        (st_.get("callee") or "").rsplit("::", 1)[-1] in SORTS for g_ in C.reach_from(prog, [site["callee"]]) for _b, st_ in g_.calls())]
     loops = Sym(prog, dm, ifconv=False).loops()
     if loops:
         n_o += 1
         hdr = min(h for h, _ in loops)
-        ok = any(dm.dominates(b, hdr) for b, _ in sorts)
+        ok = any(dm.dominates(b, hdr) for b, _ in sorts) or any(dm.dominates(b, hdr) for b in helper_sorts)
+        if not ok and (sorts or helper_sorts):
+            ok = None       # a sort exists but not in a shape whose position this rule can place
         law("C15.O", "sorted", ok, "do_merge does not sort the merged run before the merge loop", dm.id)
         cmpf = [x for x in prog.fns.values() if not x.promoted and x.item_name == "centroid_cmp"]
         if cmpf and sorts:
